@@ -183,11 +183,16 @@ func (s *SimSource) Read(p []byte) (int, error) {
 		hookYield("src.call")
 	}
 	switch fault {
-	case "err0":
-		s.failed = fmt.Errorf("%w (source %s call %d)", ErrInjected, s.Name, call)
+	case "err0", "err0t":
+		e := fmt.Errorf("%w (source %s call %d)", ErrInjected, s.Name, call)
+		if fault == "err0" {
+			s.failed = e // a broken source stays broken; "err0t" is transient
+		}
 		s.Fired.Add("src.err0", 1)
-		s.FaultPos = s.Pos
-		return 0, s.failed
+		if s.FaultPos < 0 {
+			s.FaultPos = s.Pos
+		}
+		return 0, e
 	case "zero":
 		if s.zeros < 2 {
 			s.zeros++
@@ -197,7 +202,7 @@ func (s *SimSource) Read(p []byte) (int, error) {
 	}
 	s.zeros = 0
 	rem := len(s.Data) - s.Pos
-	if rem == 0 && fault != "errn" {
+	if rem == 0 && fault != "errn" && fault != "errnt" {
 		s.eofSeen = true
 		return 0, io.EOF
 	}
@@ -226,11 +231,16 @@ func (s *SimSource) Read(p []byte) (int, error) {
 	}
 	copyVisible(p[:n], s.Data[s.Pos:s.Pos+n])
 	s.Pos += n
-	if fault == "errn" {
-		s.failed = fmt.Errorf("%w (source %s call %d with %d bytes)", ErrInjected, s.Name, call, n)
+	if fault == "errn" || fault == "errnt" {
+		e := fmt.Errorf("%w (source %s call %d with %d bytes)", ErrInjected, s.Name, call, n)
+		if fault == "errn" {
+			s.failed = e
+		}
 		s.Fired.Add("src.errn", 1)
-		s.FaultPos = s.Pos
-		return n, s.failed
+		if s.FaultPos < 0 {
+			s.FaultPos = s.Pos
+		}
+		return n, e
 	}
 	if s.Pos == len(s.Data) && s.eofWithData {
 		s.eofSeen = true
